@@ -216,6 +216,21 @@ CHECKS = {
         note='Trusted: z3 (linear arithmetic); np.rot90 index map (the replay measures it on a real rotated image); jittered sort '
              'keys assumed distinct (probability-0 event otherwise).',
         design='4/C18, 7.6'),
+    'C06': dict(
+        text='Bounded symbolic execution of the real to_altoxml_string / from_altoxml / get_hwvh and of ArabicHelper._reverse (with its public '
+             'wrappers) where every character of a transcription is a class representative chosen by the solver (U+0020, another white-'
+             'space character, charset letter, out-of-charset letter, Arabic letter; 7 classes for the order conversion) and page size, '
+             'polygons, baselines, heights, alignment positions, character confidences, crop grid and minimum line confidence are '
+             'symbolic.  On every path: the export does not raise; a non-blank line appears exactly once unless its confidence is below '
+             'the minimum; the String contents are transcription.split() (order-converted on Arabic lines) on the aligned, fallback, '
+             'absent-logits and unknown-window branches; every geometry attribute is an integer; WC in [0,1]; re-import gives the same '
+             'words; print space = bounding box of the blocks and the margins cover the rest (symbolic block boxes); the order '
+             'conversion is a permutation and an involution.  Bound: transcriptions <= 3 characters, order conversion <= 4 (quick); '
+             '<= 4 / <= 6 (thorough).',
+        note='Trusted: z3; one representative per character class (the code distinguishes characters only by these classes); align_text, '
+             'get_line_confidence and the line cropper are stubs with symbolic results (C05 / C16 / C10); the lxml stub (escaping outside); '
+             'word box positions are not claimed, only their integrality.',
+        design='4/C06'),
 }
 
 NOT_APPLICABLE = {
